@@ -158,7 +158,9 @@ class _STIXBase(collections.abc.Mapping):
                     )
                     if registered_ext_class:
                         registered_toplevel_extension_props.update(
-                            registered_ext_class._toplevel_properties,
+                            getattr(
+                                registered_ext_class, "_toplevel_properties", {},
+                            ),
                         )
                     else:
                         has_unregistered_toplevel_extension = True
